@@ -180,8 +180,16 @@ static int wb_backshift_len(var table, int id) {
 
 /* ---------- behavioural oracle ---------- */
 
+/* value kinds: 0 Int, 1 String, 2 a plain 40-byte record (wider than every key type but the probe): v, ~v, 3v and padding */
+struct Wide40 { int64_t v, nv, v3; char pad[16]; };
+static var Wide40;
 static int64_t value_of(var v, int strvals) {
-  if (strvals) { return strtoll(((struct String*)v)->val + 1, NULL, 10); }
+  if (strvals == 1) { return strtoll(((struct String*)v)->val + 1, NULL, 10); }
+  if (strvals == 2) {
+    struct Wide40* w = v;
+    if (w->nv != ~w->v || w->v3 != (int64_t)((uint64_t)w->v * 3) || w->pad[0] != 'p' || w->pad[15] != 'q') { return INT64_MIN + 40; }   /* torn */
+    return w->v;
+  }
   return ((struct Int*)v)->val;
 }
 
@@ -245,7 +253,13 @@ static void check_against(var table, const int* pres, const int64_t* vals, int n
 }
 
 static void set_val(var table, int id, int64_t v, int strvals) {
-  if (strvals) { char b[32]; snprintf(b, sizeof b, "v%" PRId64, v); set(table, K[id], $S(b)); }
+  if (strvals == 1) { char b[32]; snprintf(b, sizeof b, "v%" PRId64, v); set(table, K[id], $S(b)); }
+  else if (strvals == 2) {
+    char buf[sizeof(struct Header) + sizeof(struct Wide40)];
+    struct Wide40* w = header_init(buf, Wide40, AllocStack);
+    memset(w, 0, sizeof *w); w->v = v; w->nv = ~v; w->v3 = (int64_t)((uint64_t)v * 3); w->pad[0] = 'p'; w->pad[15] = 'q';
+    set(table, K[id], w);
+  }
   else { set(table, K[id], $I(v)); }
 }
 
@@ -269,9 +283,10 @@ static void run_table_case(vh_rng* r, int mode, int universe, int nops, int swee
   int64_t live0 = pe.live;
   make_keys(r);
   memset(present, 0, sizeof present); nmodel = 0; version = 0;
-  int strvals = is_str_mode();
+  int strvals = is_str_mode() ? 1 : vh_chance(r, 35) ? 2 : 0;
   var ktype = key_type_of_mode();
-  var vtype = strvals ? String : Int;
+  var vtype = strvals == 1 ? String : strvals == 2 ? Wide40 : Int;
+  if (strvals == 2) { vh_count("tables_with_values_wider_than_keys"); }
   var t = new_with(Table, tuple(ktype, vtype));
   char opd[128];
   int after_resize0 = 0;
@@ -475,5 +490,6 @@ int main(int argc, char** argv) {
   probes_init();
   pe_prop = "C02";
   big_cases = getenv("VH_BIG") != NULL;
+  Wide40 = new_root(Type, $S("Wide40"), $I(sizeof(struct Wide40)));
   return vh_run(argc, argv, "table", fixed, case_random);
 }
